@@ -1978,6 +1978,18 @@ GEN(int) @G(n int) {
 	RETURN
 }`, Drives: []Drive{gen("int", "@G", "1"), gen("int", "@G", "0")}},
 
+	{Name: "YieldAsFunctionValue", Props: []string{"C12", "C01"}, MayReject: true, Src: `
+// Yield used as a VALUE (bound to a variable, passed as a callback) must be rejected (or behave like the source)
+func @each(xs []int, f func(int)) { for _, x := range xs { f(x) } }
+GEN(int) @G(xs []int) {
+	YIELD(1)
+	emit := YIELDVALUE(int)
+	emit(2)
+	@each(xs, YIELDVALUE(int))
+	YIELD(3)
+	RETURN
+}`, Drives: []Drive{gen("int", "@G", "[]int{7, 8}")}},
+
 	{Name: "RangePointerToArray", Props: []string{"C12", "C04"}, MayReject: true, Src: `
 GEN(int) @G() {
 	a := &[3]int{1, 2, 3}
@@ -2198,18 +2210,6 @@ func @Sum(n int) int {
 	RANGEITER(v, :=, GENCALL(int, @Nums, n)) { s += v }
 	return s
 }`, Drives: []Drive{fn("int", "@Sum", "4")}},
-
-	{Name: "YieldAsFunctionValue", Props: []string{"C12", "C01"}, Finding: "D42", Src: `
-// Yield used as a VALUE (bound to a variable, passed as a callback) is neither rewritten nor rejected
-func @each(xs []int, f func(int)) { for _, x := range xs { f(x) } }
-GEN(int) @G(xs []int) {
-	YIELD(1)
-	emit := YIELDVALUE(int)
-	emit(2)
-	@each(xs, YIELDVALUE(int))
-	YIELD(3)
-	RETURN
-}`, Drives: []Drive{gen("int", "@G", "[]int{7, 8}")}},
 
 	{Name: "ElementTypeNameShadowed", Props: []string{"C11", "C01"}, Finding: "D33", Src: `
 // a parameter / local variable named like the element type of the generator
